@@ -10,7 +10,7 @@ XSD='''<xs:schema xmlns:xs="http://www.w3.org/2001/XMLSchema" xmlns:t="http://ex
 MINS=['0','1']; MAXS=['1','2','unbounded']
 smin,dmin,vmin=sym_choice('minOccurs',MINS); smax,dmax,vmax=sym_choice('maxOccurs',MAXS)
 def mk():
-    m=Machine2(bodies,'/repo')
+    m=Machine2(bodies,'/repo'); m._fill()
     # patch the parsed tree: attribute placeholders become symbolic strings
     return m
 def entry(m):
